@@ -44,10 +44,39 @@ def guard(c):
     if getattr(c, "_guarded", False):
         return c
     c._guarded = True
+    # parameters are bound by POSITION: the clauses keep speaking of the names used when they were written, the real function
+    # may call its parameters anything
+    alias = {}
+    try:
+        rel, qual = c.target.split("::")
+        fnode = loader.module(rel).functions.get(qual)
+        if fnode is not None and not c.assumed:
+            real = [a.arg for a in fnode.args.posonlyargs + fnode.args.args]
+            if len(real) == len(c.params) and real != [p_[0] for p_ in c.params]:
+                alias = {orig: rn for (orig, _m), rn in zip(c.params, real) if orig != rn}
+                c.params = [(rn, mk) for (_o, mk), rn in zip(c.params, real)]
+    except Exception:  # noqa
+        alias = {}
+
+    def aliased(x):
+        if not alias:
+            return
+        args = getattr(x, "args", None)
+        if isinstance(args, dict):
+            for orig, rn in alias.items():
+                if rn in args and orig not in args:
+                    args[orig] = args[rn]
+        entry = getattr(x, "entry", None)
+        if entry is not None and hasattr(x, "i"):          # LoopCtx: entry-state lookups by the written names
+            for orig, rn in alias.items():
+                v = entry.lookup(rn)
+                if v is not None and entry.lookup(orig) is None:
+                    entry.frames[-1].env[orig] = v
 
     def post(fn):
         def g(cx):
             try:
+                aliased(cx)
                 return fn(cx)
             except _SHAPE_ERRORS as e:
                 if cx.ex.contract is c:
@@ -59,6 +88,8 @@ def guard(c):
     def hard(fn, what):
         def g(*a, **k):
             try:
+                for x in a:
+                    aliased(x)
                 return fn(*a, **k)
             except Unsupported:
                 raise
@@ -1151,7 +1182,7 @@ def pattern_obligations(repo, tier):
     obls = []
     G = lambda label, ok, why="": obls.append(ground_obligation(f"C16/mbox_email_extractor.py::MBOX_FROM_PATTERN/module-invariant#{label}", ok, why,
                                                                  MBOX, kind="module-invariant", backend="ground"))
-    node = m.assigns.get("MBOX_FROM_PATTERN")
+    node = m.assigns.get(M.separator_pattern_name(repo))
     try:
         assert isinstance(node, ast.Call) and ast.unparse(node.func) == "re.compile"
         pat = ast.literal_eval(node.args[0])
@@ -1216,7 +1247,19 @@ def frame_obligations(repo, tier):
         "functions": [dict(dt.fn_info("FileMetadataInterface.populate_from_path"), obligations=1)] if fn is not None else []}
 
 
-EXTRA = [pattern_obligations, frame_obligations]
+def _guarded_extra(fn, oid):
+    """an EXTRA never crashes the check: an exception inside pack code on a changed tree is an unrecognised shape -> `unknown`"""
+    def run(repo, tier):
+        try:
+            return fn(repo, tier)
+        except Exception as e:  # noqa
+            return {"obligations": [ground_obligation(oid, False, f"shape not recognised: {type(e).__name__}: {e}"[:300], "pack", definite=False)], "functions": []}
+    run.__name__ = fn.__name__
+    return run
+
+
+EXTRA = [_guarded_extra(pattern_obligations, "C16/mbox_email_extractor.py::MBOX_FROM_PATTERN/module-invariant#pattern-is-a-compiled-bytes-literal"),
+         _guarded_extra(frame_obligations, "C16/data_types.py::FileMetadataInterface.populate_from_path/frame#assigns-only-file-metadata-fields")]
 REPLAY_UNKNOWN = True      # an obligation the solver leaves unknown is searched natively (replay/C16.py) before it is reported undecided
 
 
